@@ -33,6 +33,7 @@ void run_command(tfel::system::ProcessManager& m, int tid, size_t opi, const std
   vsim::Fate f; f.kind = int(op[1]); f.value = int(op[2]); f.min_steps = int(op[3]);
   if (f.kind == 0) f.value &= 0xff;
   if (f.kind == 1 && (f.value < 1 || f.value > 31)) f.value = 9;
+  if (op.size() > 6 && op[6] > 0 && f.kind != 2) { f.stop_at = int(std::min<long>(op[6], 30)); f.stop_len = 3 + int(op[6] % 5); f.min_steps = std::max(f.min_steps, f.stop_at + 1); }   // job control: stopped, then continued
   for (long y = 0; y < op[4] && y < 8; ++y) vsim::yield();
   int verdict = -1; std::string msg;
   vsim::set_next_fate(f);
@@ -81,7 +82,7 @@ struct H30 : hu::Harness {
       for (long k = 0; k < nc; ++k) {
         long w = r.range(0, 9), kind = 0, val = 0;
         if (w < 3) { kind = 0; val = 0; } else if (w < 6) { kind = 0; val = r.range(1, 5) * (r.chance(1, 8) ? 50 : 1); } else if (w < 9) { kind = 1; static const long sg[] = {9, 11, 15, 6, 2}; val = sg[r.range(0, 4)]; } else kind = 2;
-        p.ops.push_back({t, kind, val, r.chance(1, 3) ? 0 : r.range(0, 12), r.range(0, 2), r.chance(1, 2) ? 1 : 0});
+        p.ops.push_back({t, kind, val, r.chance(1, 3) ? 0 : r.range(0, 12), r.range(0, 2), r.chance(1, 2) ? 1 : 0, r.chance(1, 6) ? r.range(1, 12) : 0});
       }
     }
     for (size_t i = p.ops.size(); i > 1; --i) { size_t j = size_t(r.range(0, long(i) - 1)); if (p.ops[i - 1][0] != p.ops[j][0]) std::swap(p.ops[i - 1], p.ops[j]); }
@@ -98,7 +99,7 @@ struct H30 : hu::Harness {
     std::string s = "threads=" + std::to_string(par(0, 1)) + " sigchld_target=" + (par(1, 0) ? "forking-thread-preferred(Linux)" : "any-eligible-thread(POSIX)") + " manager=" + (par(2, 0) ? "one-per-thread" : "one-per-command") + " cmds:";   // (pid recycling is part of cfg)
     size_t n = 0;
     for (auto& o : p.ops) { if (o.size() < 5) continue; if (++n > 20) { s += " ..."; break; }
-      s += " t" + std::to_string(o[0]) + ":" + (o[1] == 2 ? std::string("execfail") : o[1] == 1 ? "sig" + std::to_string(o[2]) : "exit" + std::to_string(o[2])) + "@" + std::to_string(o[3]) + ((o.size() > 5 && o[5]) ? ">file" : ""); }
+      s += " t" + std::to_string(o[0]) + ":" + (o[1] == 2 ? std::string("execfail") : o[1] == 1 ? "sig" + std::to_string(o[2]) : "exit" + std::to_string(o[2])) + "@" + std::to_string(o[3]) + ((o.size() > 5 && o[5]) ? ">file" : "") + ((o.size() > 6 && o[6] > 0 && o[1] != 2) ? "+stopped@" + std::to_string(o[6]) : ""); }
     for (auto& f : p.faults) if (f.size() >= 3) s += " fault:stray-SIGCHLD@step" + std::to_string(f[1]);
     return s;
   }
